@@ -221,6 +221,11 @@ def cases(tier, seed):
                 for rep in ("dense", "csr"):
                     out.append(dict(floatgen=True, sizes=list(sizes), fd=fd, atol=atol, repr=rep, total=3, k=1, E=[], support=[[1], [2]],
                                     pattern="dense", mask=None, hermitian=True, vset=0))
+            # the same problem in other energy units, with the tolerance given in those units
+            for unit, atol in ((1e-15, 1e-27), (1e-9, 1e-20), (1e6, 1e-6)):
+                for rep in ("dense", "csr"):
+                    out.append(dict(floatgen=True, sizes=list(sizes), fd=fd, atol=atol, unit=unit, repr=rep, total=3, k=1, E=[], support=[[1], [2]],
+                                    pattern="dense", mask=None, hermitian=True, vset=0))
     out = sym + out  # the longest jobs first
     for c in out:
         c["seed"] = seed
@@ -245,6 +250,8 @@ def run_floatgen(case, props):
     for n in (1, 2):
         a = rng.normal(size=(N, N)) + 1j * rng.normal(size=(N, N))
         H[n] = a + a.conj().T
+    unit = case.get("unit") or 1.0
+    H = {n: m * unit for n, m in H.items()}
     conv = (lambda m: sparse.csr_array(m)) if case["repr"] == "csr" else (lambda m: np.array(m))
     kwargs = dict(subspace_indices=lattice.block_of(sizes))
     if case["fd"]:
@@ -269,7 +276,8 @@ def run_floatgen(case, props):
         return m
 
     total = case["total"]
-    Ht = [full(outs[0], n) for n in range(total + 1)]
+    H = {n: m / unit for n, m in H.items()}  # compare in units of `unit`
+    Ht = [full(outs[0], n) / unit for n in range(total + 1)]
     U = [full(outs[1], n) for n in range(total + 1)]
     G = [full(outs[2], n) for n in range(total + 1)]
     fdset = set(case["fd"]) if case["fd"] else ({0} if nb == 1 else set())
@@ -280,16 +288,16 @@ def run_floatgen(case, props):
         P = sum(G[a] @ H[b] @ U[n - a - b] for a in range(n + 1) for b in range(n - a + 1) if b in H)
         if "C01" in props:
             if np.abs((P - Ht[n])[kept]).max(initial=0) > 1e-10 * scale:
-                V.append(f"generic float energies, atol={case['atol']}: (U† H U)[{n}] differs from H_tilde on kept elements by {np.abs((P - Ht[n])[kept]).max():.2e}")
+                V.append(f"generic float energies, atol={case['atol']} unit={case.get('unit')}: (U† H U)[{n}] differs from H_tilde on kept elements by {np.abs((P - Ht[n])[kept]).max():.2e}")
             if np.abs(P[~kept]).max(initial=0) > 1e-10 * scale:
-                V.append(f"generic float energies, atol={case['atol']}: (U† H U)[{n}] is non-zero on eliminated elements ({np.abs(P[~kept]).max():.2e})")
+                V.append(f"generic float energies, atol={case['atol']} unit={case.get('unit')}: (U† H U)[{n}] is non-zero on eliminated elements ({np.abs(P[~kept]).max():.2e})")
         if "C02" in props:
             UU = sum(G[a] @ U[n - a] for a in range(n + 1))
             want = np.eye(N) if n == 0 else np.zeros((N, N))
             if np.abs(UU - want).max() > 1e-10 * scale or np.abs(G[n] - U[n].conj().T).max() > 1e-10 * scale:
-                V.append(f"generic float energies, atol={case['atol']}: unitarity / adjoint relation violated at order {n}")
+                V.append(f"generic float energies, atol={case['atol']} unit={case.get('unit')}: unitarity / adjoint relation violated at order {n}")
     return dict(violations=[dict(what=w, key=None) for w in V[:4]], nontrivial=True, outcome="floatgen-" + ("ok" if not V else "violation"),
-                sample={k_: v_ for k_, v_ in case.items() if k_ in ("sizes", "fd", "atol", "repr", "total")} | {"floatgen": True})
+                sample={k_: v_ for k_, v_ in case.items() if k_ in ("sizes", "fd", "atol", "unit", "repr", "total")} | {"floatgen": True})
 
 
 def run_props(case, props):
